@@ -1018,6 +1018,28 @@ func exprPoly(info *types.Info, e ast.Expr, defs map[types.Object]localDef, stop
 		return polyAtom(base + "[" + strings.NewReplacer("*", "\u00b7", " ", "").Replace(ip.String()) + "]"), true
 	case *ast.SliceExpr:
 		txt := strings.ReplaceAll(exprText(info, x), " ", "")
+		// the bounds in canonical form (min/max operands sorted, locals read through in the resolved forms)
+		if !x.Slice3 {
+			bound := func(e ast.Expr) (string, bool) {
+				if e == nil {
+					return "", true
+				}
+				p, ok := exprPoly(info, e, defs, stop, depth+1)
+				if !ok {
+					return "", false
+				}
+				return strings.NewReplacer("*", "\u00b7", " ", "").Replace(p.String()), true
+			}
+			lo, ok1 := bound(x.Low)
+			hi, ok2 := bound(x.High)
+			if ok1 && ok2 {
+				base := strings.ReplaceAll(exprTextD(info, x.X, defs, 0), " ", "")
+				if polyAbstract {
+					base = absName(info, x.X)
+				}
+				return polyAtom(base + "[" + lo + ":" + hi + "]"), true
+			}
+		}
 		if polyAbstract {
 			txt = absName(info, x.X) + "[:]"
 		}
